@@ -135,3 +135,24 @@ func VerifHarness_C13_AnalyzerHuge() {
 	}
 	verifReach("analysed")
 }
+
+// Makefiles with many targets: every boost stays finite and at least 1
+func VerifHarness_C13_AnalyzerManyTargets() {
+	dir := verifFSRoot() + "/proj"
+	n := []int{1, 11, 12, 16, 40}[verifIntRange("targets", 0, 4)]
+	mf := ""
+	for i := 0; i < n; i++ {
+		mf += "t" + string(rune('a'+i/26)) + string(rune('a'+i%26)) + ":\n\techo x\n"
+	}
+	verifFSPutBytes(dir+"/Makefile", []byte(mf))
+	ctx, err := NewAnalyzer().AnalyzeDirectory(dir)
+	verifAssert(err == nil && ctx != nil, "C13: analysing a directory never fails")
+	if ctx == nil {
+		return
+	}
+	for _, f := range ctx.GetContextBoosts() {
+		verifAssert(!math.IsNaN(f) && !math.IsInf(f, 0), "C13: boosts are finite")
+		verifAssert(f >= 1, "C13: boosts are at least 1")
+	}
+	verifReach("analysed")
+}
